@@ -124,7 +124,12 @@ def build_reader(kind, data, sw, ch, files, block_dur, hop_dur, max_read, record
         if kind.startswith("rec:"):
             record = True  # the framing statement holds for a recording reader as well (no rewind in this history)
         if cls == "Recorder":
+            if (round(block_dur * SR) + (0 if hop_dur is None else 1)) % 2:
+                # the documented order of the first parameters, written positionally
+                return L["util"].Recorder(inp, block_dur, hop_dur, max_read, **kw)
             return L["util"].Recorder(inp, block_dur=block_dur, hop_dur=hop_dur, max_read=max_read, **kw)
+        if not record and not kind.startswith("rec:") and round(block_dur * SR) % 2 == 0:
+            return L["util"].AudioReader(inp, block_dur, hop_dur, False, max_read, **kw)  # AudioReader's documented order
         return L["util"].AudioReader(inp, block_dur=block_dur, hop_dur=hop_dur, max_read=max_read, record=record, **kw)
     finally:
         sys.stdin = old
@@ -546,6 +551,160 @@ def fifo_recorders(rep):
                         return
 
 
+def c10_packets(rep):
+    """A user-defined source that hands out at most one packet per read (fewer samples than asked for, as the
+    AudioSource contract allows): with max_read the blocks still add up to exactly the first round(max_read*rate)
+    samples - no more, no fewer."""
+    L = lib()
+    AudioSource = L["io"].AudioSource
+
+    class Packets(AudioSource):
+        def __init__(self, data, packet, sw, ch):
+            super().__init__(SR, sw, ch)
+            self._d, self._p, self._k, self._open = data, 0, packet * sw * ch, False
+
+        def open(self):
+            self._open = True
+
+        def close(self):
+            self._open = False
+
+        def is_open(self):
+            return self._open
+
+        def read(self, size):
+            n = min(size * self.sw * self.ch, self._k, len(self._d) - self._p)
+            if n <= 0:
+                return None
+            out = self._d[self._p : self._p + n]
+            self._p += n
+            return out
+
+    for (sw, ch) in ((2, 1), (1, 2)):
+        bps = sw * ch
+        for n in (7, 12):
+            data = content(n, sw, ch)
+            for packet in (1, 2, 3):
+                for B in (2, 4, 5):
+                    for mr in (None, 5 / SR, 5.5 / SR, 6.5 / SR, (n + 2) / SR):
+                        for record in (False, True):
+                            rep.add("evaluations")
+                            rep.add("distinct_nontrivial")
+                            want = data[: visible_count(n, mr) * bps]
+                            try:
+                                r = L["util"].AudioReader(Packets(data, packet, sw, ch), block_dur=B / SR, max_read=mr, record=record)
+                                r.open()
+                                got = []
+                                while len(got) < 3 * n:
+                                    b = r.read()
+                                    if b is None:
+                                        break
+                                    got.append(b)
+                                tail = [r.read(), r.read()]
+                                r.close()
+                                got = b"".join(got)
+                                msg = None if got == want else "the blocks add up to %d samples, expected the first %d" % (len(got) // bps, len(want) // bps)
+                                if msg is None and tail != [None, None]:
+                                    msg = "reads after the end give %r" % (tail,)
+                            except Exception as exc:
+                                msg = "raised %r" % (exc,)
+                            if msg:
+                                rep.violation("reader-packets sw=%d ch=%d n=%d packet=%d B=%d max_read=%r record=%s" % (sw, ch, n, packet, B, mr, record),
+                                              "source of %d samples delivering at most %d per read, block %d, max_read %r%s: %s" % (
+                                                  n, packet, B, mr, ", recording" if record else "", msg), {"kind": "c10packets"})
+                                return
+
+
+class _FakePyAudioStream:
+    def __init__(self, owner, rate, channels, width, frames_per_buffer):
+        self._o, self._bps, self._pos, self._active = owner, channels * width, 0, True
+
+    def is_active(self):
+        return self._active
+
+    def is_stopped(self):
+        return not self._active
+
+    def read(self, n, exception_on_overflow=True):
+        data = self._o.audio
+        out = bytes(data[(self._pos + i) % len(data)] for i in range(n * self._bps))  # the microphone never ends
+        self._pos += n * self._bps
+        self._o.requests.append(n)
+        return out
+
+    def stop_stream(self):
+        self._active = False
+
+    def start_stream(self):
+        self._active = True
+
+    def close(self):
+        self._active = False
+
+
+class _FakePyAudio:
+    """Stand-in for the pyaudio module: a microphone that delivers exactly the number of frames it is asked for."""
+
+    paInt8, paInt16, paInt32 = 16, 8, 2
+    audio = bytes(range(1, 98))
+    requests = []
+
+    def PyAudio(self):
+        return self
+
+    def get_format_from_width(self, width, unsigned=False):
+        return {1: 16, 2: 8, 4: 2}[width]
+
+    def open(self, format=None, channels=1, rate=16000, input=False, output=False, input_device_index=None, frames_per_buffer=1024, **kw):
+        self._last = _FakePyAudioStream(self, rate, channels, {16: 1, 8: 2, 2: 4}[format], frames_per_buffer)
+        return self._last
+
+    def terminate(self):
+        pass
+
+
+def c10_microphone(rep):
+    """input=None (the microphone, through a stand-in for the pyaudio module): blocks of exactly block_size samples,
+    also when a block is larger than the device buffer; max_read ends the stream after round(max_read*rate) samples."""
+    L = lib()
+    fake = _FakePyAudio()
+    old = sys.modules.get("pyaudio")
+    sys.modules["pyaudio"] = fake
+    try:
+        for rate, B, fpb in ((16000, 160, 1024), (16000, 1600, 1024), (16000, 400, 256), (8000, 1025, 1024)):
+            for sw, ch in ((2, 1), (1, 2)):
+                for mr_blocks in (2, 2.5):
+                    rep.add("evaluations")
+                    rep.add("distinct_nontrivial")
+                    bps = sw * ch
+                    total = round(mr_blocks * B)
+                    fake.requests = []
+                    try:
+                        r = L["util"].AudioReader(None, block_dur=B / rate, max_read=total / rate, sr=rate, sw=sw, ch=ch, frames_per_buffer=fpb)
+                        r.open()
+                        got = []
+                        while len(got) < 6:
+                            b = r.read()
+                            if b is None:
+                                break
+                            got.append(b)
+                        r.close()
+                        stream = bytes(fake.audio[i % len(fake.audio)] for i in range(total * bps))
+                        want = [stream[i : i + B * bps] for i in range(0, len(stream), B * bps)]
+                        msg = None if got == want else "blocks of %r samples, expected %r" % ([len(x) // bps for x in got], [len(x) // bps for x in want])
+                    except Exception as exc:
+                        msg = "raised %r" % (exc,)
+                    if msg:
+                        rep.violation("reader-microphone rate=%d B=%d fpb=%d sw=%d ch=%d mr=%r" % (rate, B, fpb, sw, ch, mr_blocks),
+                                      "microphone reader, block %d samples, device buffer %d: %s" % (B, fpb, msg), {"kind": "c10mic"})
+                        return
+    finally:
+        if old is None:
+            sys.modules.pop("pyaudio", None)
+        else:
+            sys.modules["pyaudio"] = old
+
+
 def _c10_dispatch(t):
     return work_c10(t[1]) if t[0] == "w" else work_c10_large(t[1])
 
@@ -630,6 +789,8 @@ def run(prop, tier):
         c10_near_integer(rep)
         c10_rewritten(rep)
         fifo_recorders(rep)
+        c10_packets(rep)
+        c10_microphone(rep)
         ltasks = [("L", (sw, ch, B, tier, 8192)) for (sw, ch) in ((2, 2), (1, 1)) for B in ((1024, 4096, 16385, 40000) if quick else (1024, 4096, 8192, 16385, 40000, 70001))]
         for part in common.pmap(_c10_dispatch, [("w", t) for t in tasks] + ltasks):
             rep.merge(part)
@@ -681,9 +842,10 @@ def replay(case):
         return c10_case(case["source"], case["n"], case["sw"], case["ch"], files, case["B"], case["block_dur"],
                         case["H"], case["hop_dur"], case["max_read"], premature=case.get("premature", False),
                         extra_open=case.get("extra_open", False))
-    if k in ("c10near", "c10rewritten", "fiforec"):
+    if k in ("c10near", "c10rewritten", "fiforec", "c10packets", "c10mic"):
         rep = common.Report("C10", "quick", "")
-        {"c10near": c10_near_integer, "c10rewritten": c10_rewritten, "fiforec": fifo_recorders}[k](rep)
+        {"c10near": c10_near_integer, "c10rewritten": c10_rewritten, "fiforec": fifo_recorders, "c10packets": c10_packets,
+         "c10mic": c10_microphone}[k](rep)
         return rep.violations[0][1] if rep.violations else None
     if k == "c10rej":
         try:
